@@ -47,7 +47,7 @@ _cleanup_re = re.compile(r'[ /\\-]+')
 
 # This pattern should match numbers that for some reason have a full date
 # as last field
-_onrc_fulldate_re = re.compile(r'^([A-Z][0-9]+/[0-9]+/)\d{2}[.]\d{2}[.](\d{4})$')
+_onrc_fulldate_re = re.compile(r'^([A-Z][0-9]+/[0-9]+/)[0-9]{2}[.][0-9]{2}[.]([0-9]{4})$')
 
 # This pattern should match all valid numbers
 _onrc_re = re.compile(r'^[A-Z][0-9]+/[0-9]+/[0-9]+$')
